@@ -123,7 +123,7 @@ func (w *c19World) runCLI(scripts []c19Script, dry bool) (*c19Run, error) {
 	for _, s := range scripts {
 		fmt.Fprintf(&sb, "  - name: %s\n", s.Name)
 		if s.TimeoutMs > 0 {
-			fmt.Fprintf(&sb, "    timeout: %dms\n", s.TimeoutMs)
+			fmt.Fprintf(&sb, "    timeout: %dms\n", c19WaitScale(s))
 		}
 		fmt.Fprintf(&sb, "    script: %s\n", strconv.Quote(s.Text))
 	}
